@@ -930,7 +930,7 @@ func TestVerifC34(t *testing.T) {
 	defer r.Finish(t)
 	r.Rule(concurrentRule)
 	r.Assume("value sizes below 4 bytes are not generated (the id needs 4 bytes)")
-	n := vcommon.Scale(300, 8000)
+	n := vcommon.Scale(210, 6000)
 	ran := false
 	r.Cases(n, func(i int, rng *rand.Rand) {
 		ran = true
@@ -949,7 +949,7 @@ func TestVerifC34Asan(t *testing.T) {
 	r := vcommon.NewReport("C34", "asan")
 	defer r.Finish(t)
 	r.Rule(concurrentRule + " (run under AddressSanitizer)")
-	n := vcommon.Scale(40, 1200)
+	n := vcommon.Scale(30, 1000)
 	r.Cases(n, func(i int, rng *rand.Rand) {
 		runConcurrent(r, i, rng, true)
 	})
